@@ -1658,6 +1658,16 @@ impl<'de, 'e> de::Deserializer<'de> for YamlDeserializer<'de, 'e> {
             // End of input → None
             None => visitor.visit_none(),
 
+            // Placeholder for an alias to a recursive anchor that is still being read (a back
+            // edge to an ancestor): it stands for that node, not for null.
+            Some(Ev::Scalar { tag, anchor, .. })
+                if tag == &SfTag::Null
+                    && *anchor != 0
+                    && anchor_store::recursive_anchor_in_progress(*anchor) =>
+            {
+                visitor.visit_some(self)
+            }
+
             // Tagged null → None regardless of style/value
             Some(Ev::Scalar { tag, .. }) if tag == &SfTag::Null => {
                 let _ = self.ev.next()?; // consume
